@@ -158,6 +158,7 @@ func runC01(c *Ctx) {
 		}
 		return false
 	}
+	blockForwarder := blockForwarders(c)
 	nScope := 0
 	for _, fn := range c.srcFuncs(interpPkg) {
 		loops := naturalLoops(fn)
@@ -169,6 +170,14 @@ func runC01(c *Ctx) {
 			}
 			var env ssa.Value
 			what := ""
+			if sf := staticFn(call); sf != nil {
+				if ix, ok := blockForwarder[sf]; ok && ix[1] < len(call.Call.Args) {
+					env, what = call.Call.Args[ix[1]], "block"
+				}
+			}
+			if _, isFwd := blockForwarder[fn]; isFwd && callName(call) == interpPath+".Interpreter.executeStatements" {
+				return // judged at the forwarder's call sites
+			}
 			switch callName(call) {
 			case interpPath + ".Interpreter.executeStatements":
 				env, what = call.Call.Args[2], "block"
@@ -178,7 +187,9 @@ func runC01(c *Ctx) {
 				}
 				env, what = call.Call.Args[3], "match-arm"
 			default:
-				return
+				if env == nil {
+					return
+				}
 			}
 			k++
 			nScope++
@@ -366,14 +377,19 @@ func runC01(c *Ctx) {
 	c.rule("C01-R8", "def-use: the environment in which a user-defined function's body runs (the NewChildEnvironment whose result receives the parameter bindings and is handed to executeStatements together with Function.Body) is a child of the definition environment - Interpreter.globalEnv or a closure's captured Env - never of the *Environment parameter of the calling code: with assignment updating a variable found anywhere up the chain, a frame hung below the caller's scope lets `$ k = n` in the callee overwrite the caller's k (recursion destroys its own locals) and lets the callee read whatever its caller has in scope")
 	{
 		n := 0
+		fwdR8 := blockForwarders(c)
 		for _, fn := range c.srcFuncs(interpPkg) {
 			// functions that run a Function's body
 			eachInstr(fn, func(_ *ssa.BasicBlock, _ int, ins ssa.Instruction) {
 				call, ok := ins.(*ssa.Call)
-				if !ok || callName(call) != interpPath+".Interpreter.executeStatements" || len(call.Call.Args) < 3 {
+				if !ok {
 					return
 				}
-				isFnBody := derivesFrom(call.Call.Args[1], func(v ssa.Value) bool {
+				bodyArg, envArg, ok := blockExec(fwdR8, call)
+				if !ok {
+					return
+				}
+				isFnBody := derivesFrom(bodyArg, func(v ssa.Value) bool {
 					switch y := v.(type) {
 					case *ssa.Field:
 						if nt := namedOf(y.X.Type()); nt != nil && nt.Obj().Name() == "Function" {
@@ -389,7 +405,7 @@ func runC01(c *Ctx) {
 				}
 				// the frame: NewChildEnvironment call the env argument derives from
 				var frames []*ssa.Call
-				derivesFrom(call.Call.Args[2], func(v ssa.Value) bool {
+				derivesFrom(envArg, func(v ssa.Value) bool {
 					if cl, ok := v.(*ssa.Call); ok && callName(cl) == interpPath+".NewChildEnvironment" {
 						frames = append(frames, cl)
 					}
@@ -815,4 +831,51 @@ func sliceOnlyFeedsOrderInsensitiveCallee(appends []ssa.Value) bool {
 		visit(a)
 	}
 	return ok && anyCall
+}
+
+// blockForwarders: functions of pkg/interpreter that hand their own statement-list parameter and their own
+// environment parameter, both untouched, to executeStatements. Such a function embodies no block construct of its own
+// (runFunctionBody-style tails); a call of it is a block execution of the caller and is judged there. The value is the
+// pair (index of the statements parameter, index of the environment parameter).
+func blockForwarders(c *Ctx) map[*ssa.Function][2]int {
+	blockForwarder := map[*ssa.Function][2]int{}
+	for _, fn := range c.srcFuncs(interpPkg) {
+		if fn.Name() == "executeStatements" {
+			continue
+		}
+		eachCall(fn, func(call ssa.CallInstruction) {
+			if callName(call) != interpPath+".Interpreter.executeStatements" {
+				return
+			}
+			si, ei := -1, -1
+			for i, p := range fn.Params {
+				if call.Common().Args[1] == ssa.Value(p) {
+					si = i
+				}
+				if call.Common().Args[2] == ssa.Value(p) {
+					ei = i
+				}
+			}
+			if si >= 0 && ei >= 0 {
+				blockForwarder[fn] = [2]int{si, ei}
+			}
+		})
+	}
+	return blockForwarder
+}
+
+// blockExec: call executes a statement list in an environment - executeStatements itself or a block forwarder.
+func blockExec(fwd map[*ssa.Function][2]int, call *ssa.Call) (stmts, env ssa.Value, ok bool) {
+	if callName(call) == interpPath+".Interpreter.executeStatements" && len(call.Call.Args) >= 3 {
+		if _, isFwd := fwd[call.Parent()]; isFwd {
+			return nil, nil, false // judged at the forwarder's call sites
+		}
+		return call.Call.Args[1], call.Call.Args[2], true
+	}
+	if sf := staticFn(call); sf != nil {
+		if ix, ok := fwd[sf]; ok && ix[0] < len(call.Call.Args) && ix[1] < len(call.Call.Args) {
+			return call.Call.Args[ix[0]], call.Call.Args[ix[1]], true
+		}
+	}
+	return nil, nil, false
 }
